@@ -126,7 +126,12 @@ DFputcomp(int32 file_id, uint16 tag, uint16 ref, const uint8 *image, int32 xdim,
             }
 
             if (buftype == 1) { /* write out entire image */
-                ret = Hputelement(file_id, tag, ref, buffer, total);
+                /* when an existing image is replaced its new compressed form may be longer than
+                   the stored one: give the tag/ref new space instead of writing over the old data */
+                if (Hexist(file_id, tag, ref) == SUCCEED && HDreuse_tagref(file_id, tag, ref) == FAIL)
+                    ret = FAIL;
+                else
+                    ret = Hputelement(file_id, tag, ref, buffer, total);
                 free(buffer);
             }
             break;
